@@ -166,11 +166,32 @@ type c15Case struct {
 	After  string `json:"expected_receiver"`
 	NoRet  bool   `json:"return_not_asserted,omitempty"`
 	Each   string `json:"expected_each,omitempty"`
+	// Preps: the same call on a receiver with the same elements that got them through earlier
+	// mutations (extra element popped / shifted off, elements pushed one by one) instead of a literal
+	Preps map[string]string `json:"prepared_receivers,omitempty"`
 }
 
 func arrCase(method, shape string, recv []any, args string, ret any, after []any) c15Case {
-	src := fmt.Sprintf("<?php\n$a = %s;\ntry { $r = $a->%s(%s); __obs(\"r\", $r); } catch (Throwable $e) { __obs(\"!r\", $e->getMessage()); }\n__obs(\"after\", $a);\n", mLit(recv), method, args)
-	return c15Case{Method: method, Shape: shape, Src: src, Ret: mSnap(ret), After: mSnap(after)}
+	call := fmt.Sprintf("try { $r = $a->%s(%s); __obs(\"r\", $r); } catch (Throwable $e) { __obs(\"!r\", $e->getMessage()); }\n__obs(\"after\", $a);\n", method, args)
+	src := fmt.Sprintf("<?php\n$a = %s;\n", mLit(recv)) + call
+	preps := map[string]string{
+		"popped":  fmt.Sprintf("<?php\n$a = %s;\n$a->pop();\n", mLit(append(cloneL(recv), int64(99)))) + call,
+		"shifted": fmt.Sprintf("<?php\n$a = %s;\n$a->shift();\n", mLit(append([]any{int64(99)}, cloneL(recv)...))) + call,
+	}
+	// (push of a list argument is a finding of its own, cell:push:*: only scalar elements are pushed)
+	var pushes strings.Builder
+	pushes.WriteString("<?php\n$a = [];\n")
+	scalars := true
+	for _, v := range recv {
+		if _, isList := v.([]any); isList {
+			scalars = false
+		}
+		fmt.Fprintf(&pushes, "$a->push(%s);\n", mLit(v))
+	}
+	if scalars {
+		preps["pushed"] = pushes.String() + call
+	}
+	return c15Case{Method: method, Shape: shape, Src: src, Ret: mSnap(ret), After: mSnap(after), Preps: preps}
 }
 
 var idxPool = func(n int64) []int64 { return []int64{-n - 1, -n, -1, 0, 1, n - 1, n, n + 1} }
@@ -572,6 +593,39 @@ func c15Judge(pool *sb.Pool, rec *sb.Rec, c c15Case) []*failure {
 	return out
 }
 
+// c15History: metamorphic relation "same elements, different history => same outcome": the call on a
+// receiver prepared by earlier mutations must return and leave behind exactly what it does on a literal.
+func c15History(pool *sb.Pool, rec *sb.Rec, c c15Case, prep string) *failure {
+	ps, ok := c.Preps[prep]
+	if !ok {
+		return nil
+	}
+	obsOf := func(src string) (string, bool) {
+		rep := pool.Exec(&sb.Req{Kind: "script", Src: src, Tmpl: true, Run: true})
+		rec.Eval()
+		if rep.Outcome != sb.OK {
+			return "outcome=" + rep.Outcome, rep.Outcome != sb.Infra
+		}
+		o := parseObs(rep.Obs)
+		e := o["!r"]
+		if e != "" {
+			e = "raised"
+		}
+		return fmt.Sprintf("r=%s after=%s err=%s", normSnap(o["r"]), normSnap(o["after"]), e), true
+	}
+	lit, ok1 := obsOf(c.Src)
+	pre, ok2 := obsOf(ps)
+	if !ok1 || !ok2 {
+		rec.InfraProblem("history run: infra")
+		return nil
+	}
+	rec.Label("history:"+prep, "")
+	if lit == pre {
+		return nil
+	}
+	return &failure{Key: fmt.Sprintf("cell:%s:history:%s", c.Method, prep), Detail: fmt.Sprintf("%s(%s) on a receiver that was %s before differs from the same call on a literal with the same elements:\n  literal : %s\n  prepared: %s\n%s", c.Method, c.Shape, prep, clip(lit, 300), clip(pre, 300), ps), Case: c}
+}
+
 func c15Receivers() [][]any {
 	return [][]any{
 		{},
@@ -592,7 +646,7 @@ func TestC15(t *testing.T) {
 	cfg := sb.LoadConfig("C15")
 	rec := sb.NewRec(cfg)
 	defer rec.Flush()
-	rec.R.Rule = "complete enumeration of (method) x (receiver: lists of length 0..4 over ints, strings and nested lists; strings of length 0..6 over {a, b, space, e-acute, CJK}) x (argument tuples: each optional omitted / given, indexes from {-len-1, -len, -1, 0, 1, len-1, len, len+1}, 0..3 variadic items of mixed kinds, callbacks using element / index / array, reduce with and without initial value); rapid adds longer random receivers. Two observations per case: return value and receiver afterwards. Non-trivial = an optional argument is omitted, an index is negative or >= len, or the variadic count is not 1; distinct by (method, receiver, arguments)."
+	rec.R.Rule = "complete enumeration of (method) x (receiver: lists of length 0..4 over ints, strings and nested lists; strings of length 0..6 over {a, b, space, e-acute, CJK}) x (argument tuples: each optional omitted / given, indexes from {-len-1, -len, -1, 0, 1, len-1, len, len+1}, 0..3 variadic items of mixed kinds, callbacks using element / index / array, reduce with and without initial value); rapid adds longer random receivers. Two observations per case: return value and receiver afterwards; array cases are repeated on a receiver with the same elements but a history (extra element popped or shifted off, elements pushed one by one) and must give the same outcome as on the literal. Non-trivial = an optional argument is omitted, an index is negative or >= len, or the variadic count is not 1; distinct by (method, receiver, arguments)."
 	pool := &sb.Pool{}
 	defer pool.Close()
 	dl := time.Now().Add(budget(cfg, 60, 700))
@@ -606,6 +660,12 @@ func TestC15(t *testing.T) {
 		json.Unmarshal(rf.Case, &c)
 		rec.NonTrivial(c.Src)
 		rec.NonTrivial(c.Src, "r")
+		if i := strings.Index(rf.Key, ":history:"); i >= 0 {
+			if f := c15History(pool, rec, c, rf.Key[i+len(":history:"):]); f != nil {
+				rec.Fail(f.Key, f.Detail, f.Case)
+			}
+			return
+		}
 		for _, f := range c15Judge(pool, rec, c) {
 			if f.Key == rf.Key {
 				rec.Fail(f.Key, f.Detail, f.Case)
@@ -626,6 +686,12 @@ func TestC15(t *testing.T) {
 		rec.Label("method:"+c.Method, c.Src)
 		for _, f := range c15Judge(pool, rec, c) {
 			rec.Fail(f.Key, f.Detail, f.Case)
+		}
+		if c.Preps != nil && (cfg.Thorough() || idx%3 == 0) {
+			prep := []string{"popped", "pushed", "shifted"}[(idx/3)%3]
+			if f := c15History(pool, rec, c, prep); f != nil {
+				rec.Fail(f.Key, f.Detail, f.Case)
+			}
 		}
 	}
 	for _, r := range c15Receivers() {
